@@ -457,6 +457,26 @@ func c09Corner(k int) core.Result {
 	case 5:
 		tpls["main"] = "{# note #}\n{% extends 'root' %}{% block a %}c{% endblock %}"
 		want = "<c|rb>"
+	case 6, 7, 8, 9:
+		// a use tag with a 'with' list imports the blocks it does not rename under their own names, ranked like a plain use
+		tpls["h3"] = "{% block s %}hs@{{ name() }}{% endblock %}{% block f %}hf{% endblock %}{% block box %}hb{% endblock %}"
+		tpls["root2"] = "<{% block s %}rs{% endblock %}|{% block f %}rf{% endblock %}>"
+		tpls["root3"] = "<{% block s %}rs{% endblock %}>"
+		tpls["mid2"] = "{% extends 'root2' %}{% use 'h3' with box as hbox %}"
+		switch k {
+		case 6:
+			tpls["main"] = "{% extends 'root2' %}{% use 'h3' with box as hbox %}{% block f %}cf+{{ parent() }}+{{ block('hbox') }}{% endblock %}"
+			want = "<hs@h3|cf+hf+hb>"
+		case 7:
+			tpls["main"] = "{% extends 'root3' %}{% use 'h3' with box as hbox, f as hf2 %}{% block s %}cs+{{ parent() }}+{{ block('hbox') }}{{ block('hf2') }}{% endblock %}"
+			want = "<cs+hs@h3+hbhf>"
+		case 8:
+			tpls["main"] = "{% extends 'mid2' %}{% block s %}ls({{ parent() }}){% endblock %}"
+			want = "<ls(hs@h3)|hf>"
+		case 9:
+			tpls["main"] = "{% extends 'root2' %}{% use 'h3' with box as hbox %}"
+			want = "<hs@h3|hf>"
+		}
 	}
 	env := stick.New(&stick.MemoryLoader{Templates: tpls})
 	env.Functions["name"] = func(ctx stick.Context, args ...stick.Value) stick.Value { return ctx.Name() }
@@ -666,8 +686,8 @@ func c09Levels(tier string) []core.Level {
 			for which := 0; which < 3; which++ {
 				emit(core.Case{Fam: "fresh", N: []int{which}})
 			}
-			// rare shapes: the extends tag not first, one helper used at two levels / twice under different aliases
-			for k := 0; k < 6; k++ {
+			// rare shapes: the extends tag not first, one helper used at two levels / twice under different aliases, a use tag that renames some of the blocks it imports
+			for k := 0; k < 10; k++ {
 				emit(core.Case{Fam: "corner", N: []int{k}})
 			}
 			// history: three chains that fail inside a block rendered through parent() / block(), then a good chain (30 rounds, same / fresh environment)
